@@ -10,7 +10,7 @@ pat="${1:-*}"
 miss=0
 for d in seeded/$pat/; do
   id=$(basename "$d"); prop=$(python3 -c "import json;print(json.load(open('$d/meta.json'))['breaks_property'])")
-  git -C "$repo" checkout -q -- . ; git -C "$repo" apply "$d/patch.diff" || { echo "$id: patch does not apply"; miss=1; continue; }
+  git -C "$repo" checkout -q -- . ; git -C "$repo" apply "$PWD/$d/patch.diff" || { echo "$id: patch does not apply"; miss=1; continue; }
   out=$(SFS_REPO="$repo" ./check "$prop" --tier quick 2>&1); rc=$?
   git -C "$repo" checkout -q -- .
   if [ $rc -eq 1 ] && echo "$out" | grep -q "^VIOLATION property=$prop"; then
